@@ -272,3 +272,46 @@ def consumer_tables(ctx, rule='C20-R5'):
         ctx.check(not missing, rule, f.qname, f.node.name, f.loc(),
                   f'okta2symb(use_metsymb={use}) has no symbol for okta {missing}',
                   instance=f'okta2symb(use_metsymb={use}) covers 0..8')
+
+
+# ---------------------------------------------------------------------------------------------- C20-R6
+CACHING_DECORATORS = ('functools.lru_cache', 'functools.cache', 'functools.cached_property')
+MUTATING_EVENTS = ('store', 'aug', 'del', 'mutcall')
+
+
+def no_state_between_plots(ctx, rule='C20-R6'):
+    """'In any sequence within one process': nothing a plotting call computes may be kept and altered so that a later
+    call sees it - the result of a memoised function is never modified (the cache would hand the modified object
+    to every later call), and no module-level object of the plotting modules is written."""
+    fx = effects(ctx)
+    p = ctx.project
+    entries = [q for q in ('ampycloud.plots.core.diagnostic',) if q in fx.summ]
+    if not entries:
+        raise AnalysisError(rule, 'anchor vanished: ampycloud.plots.core.diagnostic')
+    reach = {q for q in fx.reachable(entries) if p.funcs[q].module.name.startswith('ampycloud.plots')}
+    ctx.floor(rule, 'plotting functions reachable from plots.diagnostic', len(reach), 12)
+    cached = {q for q in fx.summ if any(d in CACHING_DECORATORS for d in p.funcs[q].decorators)}
+    n = 0
+    for q in sorted(reach):
+        f = p.funcs[q]
+        ctx.saw(f)
+        bad = []
+        for e in fx.own_events(q):
+            if e.kind not in MUTATING_EVENTS or e.base is None:
+                continue
+            r = T.root(T.peel(e.base))
+            if tag(r) == 'call' and tag(r[1]) == 'g' and r[1][1] in cached:
+                bad.append((e, f'modifies the object returned by the memoised function {r[1][1]}: the cache keeps that '
+                               'very object, so every later plot gets the modified one (a style applied once sticks to '
+                               'all the following figures)'))
+        for (key, deep), (e, via) in fx.mutations(q).items():
+            if key[0] == 'global' and key[1].startswith('ampycloud.plots'):
+                bad.append((e, f'writes the module-level object {key[1]}' + (f' (through {via})' if via else '') +
+                            ': state carried from one plot to the next'))
+        n += 1
+        if bad:
+            for e, why in bad:
+                ctx.violation(rule, q, e.node, e.loc(), why, instance=f'{q}: nothing kept between plots is altered')
+        else:
+            ctx.ok(rule, f'{q}: modifies no memoised result and no module-level object of the plotting modules', f.loc())
+    ctx.tables['memoised_functions'] = sorted(cached)
